@@ -52,6 +52,14 @@ impl PositionInfo {
         *self.position_count.get(&key).unwrap()
     }
 
+    /// How many times the current position has been counted so far.
+    pub fn current_position_count(&self, turn: Color) -> u8 {
+        *self
+            .position_count
+            .get(&(self.current_position_hash, turn))
+            .unwrap_or(&0)
+    }
+
     pub fn max_seen_position_count(&self) -> u8 {
         *self.max_seen_position_count_stack.last().unwrap()
     }
